@@ -267,6 +267,54 @@ def _expand_entries(entries: Dict[str, List[Any]], mode: str) -> List[Dict[str, 
         raise ConfigurationError(f"Unknown expansion mode '{mode}'")
 
 
+def _planned_entries_size(entries: Dict[str, List[Any]], mode: str) -> int | None:
+    """Number of runs ``_expand_entries`` would produce, computed from lengths only.
+
+    Returns ``None`` when the size cannot be planned (mismatched by_position
+    lengths or an unknown mode); expansion then reports the proper error.
+    """
+    if not entries:
+        return 0
+    lengths = [len(values) for values in entries.values()]
+    if mode == "by_position":
+        return lengths[0] if len(set(lengths)) == 1 else None
+    if mode == "combinatorial":
+        total = 1
+        for length in lengths:
+            total *= length
+        return total
+    return None
+
+
+def _planned_block_size(
+    mode: str,
+    context_entries: Dict[str, List[Any]],
+    source_entries: Dict[str, List[Any]],
+    source_mode: str,
+) -> int | None:
+    """Planned run count of one block (``None`` if it cannot be planned)."""
+    context_size = (
+        _planned_entries_size(context_entries, mode) if context_entries else None
+    )
+    source_size = (
+        _planned_entries_size(source_entries, source_mode) if source_entries else None
+    )
+    if (context_entries and context_size is None) or (
+        source_entries and source_size is None
+    ):
+        return None
+    if mode == "by_position":
+        sizes = [size for size in (context_size, source_size) if size is not None]
+        if len(set(sizes)) > 1:
+            return None
+        return sizes[0] if sizes else 0
+    if mode == "combinatorial":
+        return (context_size if context_size is not None else 1) * (
+            source_size if source_size is not None else 1
+        )
+    return None
+
+
 def _load_and_process_source(
     src: RunSource, base_dir: Path
 ) -> Tuple[Dict[str, List[Any]], Dict[str, Any]]:
@@ -366,6 +414,38 @@ def expand_run_space(
     block_meta = []
     seen_keys: set[str] = set()
 
+    # Plan first: the size of the expansion follows from list lengths alone, so the
+    # max_runs cap is enforced before any (possibly huge) product is materialised.
+    loaded_sources: Dict[int, Tuple[Dict[str, List[Any]], Dict[str, Any]]] = {}
+    planned_sizes: List[int | None] = []
+    for index, block in enumerate(spec.blocks):
+        planned_source_entries: Dict[str, List[Any]] = {}
+        if block.source is not None:
+            loaded_sources[index] = _load_and_process_source(block.source, base_dir)
+            planned_source_entries = loaded_sources[index][0]
+        planned_sizes.append(
+            _planned_block_size(
+                block.mode,
+                block.context,
+                planned_source_entries,
+                block.source.mode if block.source else block.mode,
+            )
+        )
+    if planned_sizes and all(size is not None for size in planned_sizes):
+        known_sizes = [size for size in planned_sizes if size is not None]
+        planned_total: int | None = None
+        if spec.combine == "combinatorial":
+            planned_total = 1
+            for size in known_sizes:
+                planned_total *= size
+        elif spec.combine == "by_position" and len(set(known_sizes)) == 1:
+            planned_total = known_sizes[0]
+        if planned_total is not None and planned_total > spec.max_runs:
+            raise RunSpaceMaxRunsExceededError(
+                actual_runs=planned_total,
+                max_runs=spec.max_runs,
+            )
+
     # Process each block
     for index, block in enumerate(spec.blocks):
         context_entries = {key: list(values) for key, values in block.context.items()}
@@ -374,9 +454,7 @@ def expand_run_space(
 
         # Load source if present
         if block.source is not None:
-            source_entries, source_meta = _load_and_process_source(
-                block.source, base_dir
-            )
+            source_entries, source_meta = loaded_sources[index]
             duplicate_keys = set(context_entries).intersection(source_entries)
             if duplicate_keys:
                 raise ConfigurationError(
